@@ -5,6 +5,13 @@
 EXTENDS EBBCmds, FiniteSets
 NoErr == <<0, "none">>
 Void == <<"void">>
+\* devices that identify themselves as an EBB with a firmware version, and that version; whether connect() may accept one is the NUMERIC
+\* comparison with the minimum (C15): 3.0.2 itself is supported, 3.0.1 is not, 3.0.10 and 10.0.0 are newer than 3.0.2, 2.10.9 is not
+VerGE(v, t) == v[1] > t[1] \/ (v[1] = t[1] /\ (v[2] > t[2] \/ (v[2] = t[2] /\ v[3] >= t[3])))
+DevVersions == [ebb_ok |-> <<3, 0, 3>>, ebb_late |-> <<3, 0, 3>>, ebb_old |-> <<2, 8, 1>>, ebb_min |-> <<3, 0, 2>>, ebb_below |-> <<3, 0, 1>>,
+                ebb_v3_0_10 |-> <<3, 0, 10>>, ebb_v10 |-> <<10, 0, 0>>, ebb_v2_10_9 |-> <<2, 10, 9>>]
+HasVersion(d) == d \in DOMAIN DevVersions
+SupportedDev(d, minver) == HasVersion(d) /\ VerGE(DevVersions[d], minver)
 NoneV == <<"none">>
 
 (* ---------------- the board ---------------- *)
